@@ -86,6 +86,19 @@ def t_macro_nested(size, i, j):
             ["subcircuit_block", "", ["gate", "mb", AI("r", j), AI("r", i)]]]
 
 
+@template(size=((2, 2), (1, 3)), i=((0, 2), (-1, 3)), k=((0, 2), (0, 3)))
+def t_macro_empty(size, i, k):
+    """Macros whose expansion is empty (directly, or because they only call such macros), called as the
+    last / only statement of top-level, loop and nested blocks."""
+    return ["circuit", ["register", "r", size],
+            ["macro", "nop", "a", ["sequential_block"]],
+            ["macro", "wrap", "a", "b", ["sequential_block", ["gate", "nop", "a"], ["parallel_block", ["gate", "nop", "b"]]]],
+            ["gate", "g1", AI("r", i)],
+            ["loop", k, ["sequential_block", ["gate", "g1", AI("r", 0)], ["gate", "wrap", AI("r", i), AI("r", 1)]]],
+            ["sequential_block", ["gate", "nop", AI("r", 1)]],
+            ["gate", "n1", 0.5], ["gate", "nop", AI("r", i)]]
+
+
 @template(size=((1, 3), (1, 4)), i=((-1, 3), (-1, 4)), a=((0, 1), (0, 2)))
 def t_macro_reg(size, i, a):
     return ["circuit", ["register", "r", size], ["map", "s", "r", a, None, None],
